@@ -416,6 +416,19 @@ func (w *c07Walker) list(n ast.Node, env, loops []string, start int, after *insP
 			w.add("unused-let", "shadowed:"+what, func() {
 				insertAt(l, i, &ast.LetValueNode{Name: "zzU", Expr: intLitNode(1)}, &ast.LetValueNode{Name: "zzU", Expr: intLitNode(2)}, printRef("zzU"))
 			})
+			// a let that re-uses a name already bound (a used param, an enclosing let or loop variable) and is never
+			// used itself: usedness is per binder, not per name
+			for qi, q := range bound {
+				if qi >= 2 {
+					break
+				}
+				if q != "ij" {
+					q := q
+					w.add("unused-let", "rebinding-a-bound-name:"+what, func() {
+						insertAt(l, i, &ast.LetValueNode{Name: q, Expr: intLitNode(1)})
+					})
+				}
+			}
 			for _, q := range bound {
 				if !has(loops, q) && q != "ij" {
 					q := q
@@ -522,6 +535,59 @@ func (w *c07Walker) node(n ast.Node, env, loops []string, here, after, outer *in
 		w.add("undeclared-call-param", "call", func() {
 			n.Params = append(n.Params, &ast.CallParamValueNode{Key: "zzQ", Value: intLitNode(1)})
 		})
+		{
+			// a param that someone else declares -- the caller, or any other template -- but the callee does not
+			declares := func(ps []c07Param, x string) bool {
+				for _, p := range ps {
+					if p.name == x {
+						return true
+					}
+				}
+				return false
+			}
+			passes := func(x string) bool {
+				for _, p := range n.Params {
+					switch p := p.(type) {
+					case *ast.CallParamValueNode:
+						if p.Key == x {
+							return true
+						}
+					case *ast.CallParamContentNode:
+						if p.Key == x {
+							return true
+						}
+					}
+				}
+				return false
+			}
+			if callee, known := w.callees[n.Name]; known {
+				for _, x := range w.params {
+					if !declares(callee, x) && !passes(x) {
+						x := x
+						w.add("undeclared-call-param", "call:name-of-a-caller-param", func() {
+							n.Params = append(n.Params, &ast.CallParamValueNode{Key: x, Value: intLitNode(1)})
+						})
+						break
+					}
+				}
+				var others []string
+				for name := range w.callees {
+					others = append(others, name)
+				}
+				sort.Strings(others)
+			outer:
+				for _, name := range others {
+					for _, p := range w.callees[name] {
+						if x := p.name; !declares(callee, x) && !passes(x) && !has(w.params, x) {
+							w.add("undeclared-call-param", "call:name-of-another-template's-param", func() {
+								n.Params = append(n.Params, &ast.CallParamValueNode{Key: x, Value: intLitNode(1)})
+							})
+							break outer
+						}
+					}
+				}
+			}
+		}
 		if n.Data != nil {
 			w.exprSite("call-data-expr", func() ast.Node { return n.Data }, func(e ast.Node) { n.Data = e })
 		}
